@@ -367,7 +367,8 @@ func (h *hist) lifeObs() tr.M {
 			"pens": id.PenaltySeconds() > 0, "pend": st.HasDelayedOfflinePenalty(a), "stake": !common.ZeroOrNil(id.Stake),
 			"locked": !common.ZeroOrNil(id.LockedStake()), "repl": !common.ZeroOrNil(id.ReplenishedStake()), "invites": int(id.Invites), "inviter": "",
 			"nfl": len(id.Flips), "req": int(id.RequiredFlips), "pool": vc.IsPool(a), "vval": vc.IsValidated(a), "von": vc.IsOnlineIdentity(a),
-			"rich": st.GetBalance(a).Cmp(sim.Dna(3000, 1)) >= 0, "rec": ro != nil && ro.State.VerifHasIdentityRecord(a)}
+			"rich": st.GetBalance(a).Cmp(sim.Dna(3000, 1)) >= 0, "rec": ro != nil && ro.State.VerifHasIdentityRecord(a),
+			"balL": sim.Limbs(st.GetBalance(a)), "stakeL": sim.Limbs(id.Stake), "lockedL": sim.Limbs(id.LockedStake())}
 		if k == lifeGod {
 			m["invites"] = int(st.GodAddressInvites())
 		}
@@ -648,6 +649,22 @@ func (h *hist) lifeAlign(p lifePath, idx int) bool {
 
 func (h *hist) lifeRun(p lifePath) {
 	l := h.life
+	deviated := false
+	defer func() {
+		// the node answered an attempt otherwise than the specification says: the history is continued until the pending
+		// switches (if any) have been applied, so that the consequences come before the property clauses as well
+		st := h.ref.n.App.State
+		if deviated && st.ValidationPeriod() != state.AfterLongSessionPeriod &&
+			(len(st.StatusSwitchAddresses()) > 0 || len(st.Delegations()) > 0 || len(st.DelayedOfflinePenalties()) > 0) {
+			for i := 0; i <= lifeRange; i++ {
+				l.step = tr.M{"op": "Settle", "idx": len(p.Path), "kind": "settle"}
+				if !h.lifeBlock() || h.ref.n.Chain.Head.Flags().HasFlag(types.IdentityUpdate) {
+					break
+				}
+			}
+			l.stats["settled"]++
+		}
+	}()
 	for idx, s := range p.Path {
 		mark := func(kind string) {
 			l.step = tr.M{"op": s.N, "out": s.Out, "inv": s.Inv, "rw": s.Rw, "by": s.By, "idx": idx, "kind": kind, "pool": s.Pool, "block": s.Block, "post": s.Post}
@@ -739,6 +756,9 @@ func (h *hist) lifeRun(p lifePath) {
 				if id == rec.id {
 					included = true
 				}
+			}
+			if included != s.Block {
+				deviated = true
 			}
 			if included {
 				l.stats["included"]++
